@@ -59,6 +59,14 @@ class Conc:
                 return a - b
             if op == "Mul":
                 return a * b
+            if op == "Rem":
+                if b == 0:
+                    raise Stuck("remainder by zero")
+                return a % b
+            if op == "Div":
+                if b == 0:
+                    raise Stuck("division by zero")
+                return a // b
             if op == "BitAnd":
                 return a & b
             if op == "BitOr":
